@@ -17,12 +17,13 @@ type VerifRecFS struct {
 	Opens     int
 	LastFlag  experimentalsys.Oflag
 	File      *VerifRecFile
+	NextIsDir bool // what the next opened file answers to IsDir
 }
 
 func (r *VerifRecFS) OpenFile(path string, flag experimentalsys.Oflag, perm fs.FileMode) (experimentalsys.File, experimentalsys.Errno) {
 	r.Opens++
 	r.LastFlag = flag
-	r.File = &VerifRecFile{fs: r}
+	r.File = &VerifRecFile{fs: r, IsDirectory: r.NextIsDir}
 	return r.File, 0
 }
 func (r *VerifRecFS) Mkdir(string, fs.FileMode) experimentalsys.Errno  { r.Mutations++; return 0 }
@@ -106,11 +107,11 @@ func VerifC17_Mutators() {
 
 // VerifC17_FileMutators: same for files opened through the read-only mount.
 func VerifC17_FileMutators() {
-	rec := &VerifRecFS{}
+	rec := &VerifRecFS{NextIsDir: verifrt.Bool("isdir")} // the opened path is a file or a directory
 	ro := &ReadFS{FS: rec}
-	f, errno := ro.OpenFile("p", experimentalsys.O_RDONLY, 0)
+	flags := []experimentalsys.Oflag{experimentalsys.O_RDONLY, experimentalsys.O_RDONLY | experimentalsys.O_DIRECTORY}
+	f, errno := ro.OpenFile("p", flags[verifrt.Choose("oflag", 2)], 0)
 	verifrt.Assume(errno == 0)
-	rec.File.IsDirectory = verifrt.Bool("isdir")
 	var e experimentalsys.Errno
 	switch verifrt.Choose("op", 4) {
 	case 0:
